@@ -301,6 +301,32 @@ def family_b3(tier):
                     yield desc, Msg(name, k, [Field("r", 1000, "uint16")], [outer], [Data("md", 3000, cyc.data())])
 
 
+def family_deep(tier):
+    """four and five levels (root -> g -> h -> i [-> j]): the emitters recurse per level, trait parameter names are the
+    joined path, and the cursor of an entry is handed down level by level"""
+    cyc = Cycler()
+    variants = [("chain4", 3, False, False), ("chain4+data", 3, True, False), ("chain4+siblings", 3, True, True)]
+    if tier != "quick":
+        variants += [("chain5", 4, False, False), ("chain5+data", 4, True, True)]
+    for k, (name, depth, with_data, siblings) in enumerate(variants):
+        ids = Ids()
+
+        def build(level):
+            fields = [Field("x%d" % level, ids.next(), "uint8" if level % 2 else "uint16")]
+            groups = []
+            if level < depth:
+                groups.append(build(level + 1))
+                if siblings and level == depth - 1:
+                    groups.append(Group("s%d" % level, ids.next(), [Field("y", ids.next(), "uint8")], dim=cyc.dim()))
+            data = [Data("d%d" % level, ids.next(), cyc.data())] if with_data else []
+            if level == 2 and not with_data:
+                fields = []                 # a member-less level in the middle of the chain
+            return Group("g%d" % level, ids.next(), fields, groups, data, dim=cyc.dim())
+
+        top = build(1)
+        yield "DEEP:%s" % name, Msg("dp%d" % k, k + 1, [Field("r", 1000, "uint16")], [top], [Data("md", 3000, cyc.data())] if with_data else [])
+
+
 def _gdesc(g):
     s = "const" if any(f.type == "CST" for f in g.fields) and len(g.fields) == 1 else ("f%d" % len(g.fields))
     if g.data:
@@ -319,6 +345,7 @@ def catalogue(tier, byte_order="littleEndian", pack=40, families=("A", "B")):
     if "B" in families:
         msgs += list(family_b(tier))
         msgs += list(family_b3(tier))
+        msgs += list(family_deep(tier))
     schemas = []
     tag = "le" if byte_order == "littleEndian" else "be"
     for i in range(0, len(msgs), pack):
